@@ -133,6 +133,39 @@ theorem C16_fol_reset_reads_data (kb : FKB ι α) (s : FState ι α) (i : ι) (g
     Table.getD (kb i).world ((resetAll s).get i) g = dataOf kb s i g :=
   reset_reads_data kb s i g
 
+/-- what `reset_bounds()` after inference returns, table by table: the tables `reset_bounds()` gives on the
+start state, followed by the rows inference created, each at its formula's world default in data
+and bounds. This is the whole trace inference leaves: the second run starts from the fresh model
+PLUS the world-default rows of the groundings the first run discovered. -/
+theorem C16_fol_reset_is_fresh_plus_rows (kb : FKB ι α) (cs : List (FCall ι)) (s : FState ι α) (i : ι) :
+    ∃ ex : Table α, (resetAll (runFCalls kb cs s).1).get i = (resetAll s).get i ++ ex ∧
+      ∀ r ∈ ex, r = ⟨r.g, (kb i).world, (kb i).world⟩ :=
+  (sevW_runFCalls kb cs s).reset_tables i
+
+/-- **History independence, exactly**, whenever the earlier calls created no grounding (all
+groundings were present from the data — in particular for every knowledge base whose facts cover
+the groundings it reasons about): `reset_bounds()` returns the very tables of the start state's
+`reset_bounds()`, and any call sequence afterwards produces the same tables and reports the same
+amounts as on the freshly reset start state. (With growth the two can differ: known findings
+D11 / D14.) -/
+theorem C16_fol_reset_exact_of_no_growth (kb : FKB ι α) (cs : List (FCall ι)) (s : FState ι α)
+    (hlen : ∀ i, ((runFCalls kb cs s).1.get i).length = (s.get i).length) :
+    FolFix.SG (resetAll (runFCalls kb cs s).1) (resetAll s) := by
+  intro i
+  obtain ⟨ex, he, _⟩ := C16_fol_reset_is_fresh_plus_rows kb cs s i
+  have h1 : ((resetAll (runFCalls kb cs s).1).get i).length = ((resetAll s).get i).length := by
+    rw [resetAll_get, resetAll_get]
+    simp only [Table.resetBounds, List.length_map]
+    exact hlen i
+  rw [he, List.length_append] at h1
+  have : ex = [] := List.eq_nil_of_length_eq_zero (by omega)
+  rw [he, this, List.append_nil]
+
+theorem C16_fol_rerun_equal_of_no_growth (kb : FKB ι α) (cs cs' : List (FCall ι)) (s : FState ι α)
+    (hlen : ∀ i, ((runFCalls kb cs s).1.get i).length = (s.get i).length) :
+    FolFix.PG (runFCalls kb cs' (resetAll (runFCalls kb cs s).1)) (runFCalls kb cs' (resetAll s)) :=
+  FolFix.runFCalls_congr kb cs' (C16_fol_reset_exact_of_no_growth kb cs s hlen)
+
 end fol
 
 end LNN
